@@ -14,7 +14,7 @@ func (k Keeper) InitGenesis(ctx sdk.Context, state types.GenesisState) []abci.Va
 		if op.OperatorInfo.EarningsAddr == "" {
 			op.OperatorInfo.EarningsAddr = op.OperatorAddress
 		}
-		if err := k.SetOperatorInfo(ctx, op.OperatorAddress, &op.OperatorInfo); err != nil {
+		if err := k.setOperatorInfo(ctx, op.OperatorAddress, &op.OperatorInfo, true /* genesis */); err != nil {
 			panic(errorsmod.Wrap(err, "failed to set operator info"))
 		}
 	}
